@@ -12,7 +12,7 @@ from common import (V, ebb_spec, PORT_NAMES, mk_ops, call, lcall, discover, pick
 
 PROP = 'C06'
 LEVEL = 'exploration'
-N_QUICK = 16000
+N_QUICK = 48000
 N_THOROUGH = 2000000
 WALL_QUICK = 100
 WALL_THOROUGH = 1500
@@ -312,6 +312,8 @@ def check(scn, hist):
             if op['what'] == 'replace_device':
                 specs[op['port']] = dict(op['spec'], port=op['port'])
             continue
+        if op.get('nojudge'):
+            continue
         oid = rec['id']
         faulty = bool(rec['faults_fired']) or any(q.get('plan') and set(q['plan']) - {'at', 'delay'}
                                                   for q in rec['requests'])
@@ -479,6 +481,8 @@ def arg_class(v):
         return 'None'
     if isinstance(v, bool):
         return 'bool'
+    if isinstance(v, dict):
+        return 'float'
     if v < 0:
         return 'neg'
     if v in (0, 1):
@@ -529,6 +533,7 @@ def observe(scn, hist, st):
 # request generators: abstract request -> (legacy call or None, ebb3 call or None)
 
 PAUSE_EDGES = [-1, 0, 1, 2, 749, 750, 751, 1499, 1500, 1501, 2249, 2250, 2251, 100000]
+PAUSE_HUGE = [750000, 750001, 800000, 1000000, 1234567]      # a thousand chunks and more
 
 
 def opt(rng, lo, hi, edges):
@@ -541,8 +546,29 @@ def opt(rng, lo, hi, edges):
     return pick_int(rng, lo, hi, edges)
 
 
+def floaty(rng):
+    """A legacy call whose numbers are floats or bools that compare equal to integers other calls use.
+    Such a call is outside the property's quantifier (integers) and is never judged; it is history: a
+    memo keyed on argument equality would serve its text to a later integer call."""
+    def fl(v):
+        return {'float': repr(float(v))}
+    r = rng.random()
+    if r < 0.4:
+        n = rng.choice([750, 1500, 2000, 1, 751])
+        return [('legacy', 'doTimedPause', [fl(n)], {'_nojudge': True})]
+    if r < 0.7:
+        dx, dy, t = rng.choice([(40, 0, 100), (1, 1, 1), (0, 0, 750), (-7, 2, 30000)])
+        return [('legacy', 'doXYMove', [fl(dx), fl(dy), fl(t)], {'_nojudge': True})]
+    if r < 0.85:
+        return [('legacy', 'doXYMove', [True, False, True], {'_nojudge': True})]
+    a, b, t = rng.choice([(3, 4, 50), (1, 0, 1)])
+    return [('legacy', 'doABMove', [fl(a), fl(b), fl(t)], {'_nojudge': True})]
+
+
 def gen_request(rng):
     """Returns list of (layer, fn, args, kwargs)."""
+    if rng.random() < 0.01:
+        return floaty(rng)
     kind = rng.choice(['xy', 'xy', 'ab', 'pause', 'pause', 'lm', 'lm', 'abs', 'abs', 'abs', 'off', 'on', 'menable', 'menable',
                        'pendown', 'penup', 'pendown', 'penup', 'pincfg', 'pincfg3', 'pinset', 'pinread', 'toggle',
                        'sc5', 'sc4', 'sc12', 'sc11', 'srv', 'srv', 'lv', 'lvq', 'var', 'varq', 'cs', 'ca', 'qs',
@@ -564,6 +590,8 @@ def gen_request(rng):
                                         pick_int(rng, 1, 100000, [1, 750])], vb)]
     if kind == 'pause':
         n = rng.choice(PAUSE_EDGES) if rng.random() < 0.6 else rng.randint(-3, 6000)
+        if rng.random() < 0.006:
+            n = rng.choice(PAUSE_HUGE)
         return [('legacy', 'doTimedPause', [n], vb), ('ebb3', 'timed_pause', [n], {})]
     if kind == 'lm':
         z = lambda: rng.choice([0, 0, 0, 1, -1, rng.randint(-2 ** 31 + 1, 2 ** 31 - 1), rng.randint(-1000, 1000)])
@@ -671,10 +699,14 @@ def gen_request(rng):
     raise ValueError(kind)
 
 
-def build(world, reqs, no_port=False, unconnected=False, swaps=None):
+def build(world, reqs, no_port=False, unconnected=False, swaps=None, pre=None):
     lport = world['boards'][0]['port']
     eport = world['boards'][1]['port']
     ops = [{'op': 'lopen', 'slot': 0, 'port': lport}, {'op': 'new', 'obj': 0}]
+    for layer, fn, a, k in (pre or []):
+        # helpers called on the object before it is connected: legal, silent no-ops
+        if layer == 'ebb3':
+            ops.append(call(0, fn, a, k))
     if not unconnected:
         ops.append(call(0, 'connect', [eport]))
     pair = 0
@@ -686,10 +718,14 @@ def build(world, reqs, no_port=False, unconnected=False, swaps=None):
             ops.append({'op': 'lopen', 'slot': 0, 'port': lport})
         pair += 1
         for layer, fn, a, k in group:
+            nojudge = bool(k.get('_nojudge'))
+            k = {x: y for x, y in k.items() if x != '_nojudge'}
             if layer == 'legacy':
                 op = lcall('ebb_motion.' + fn, [None if no_port else {'slot': 0}] + list(a), k)
             else:
                 op = call(0, fn, a, k)
+            if nojudge:
+                op['nojudge'] = True
             if len(group) == 2:
                 op['pair'] = pair
             ops.append(op)
@@ -728,13 +764,22 @@ def gen(rng, idx):
                 b = dict(world['boards'][0])
                 b['fw'] = rng.choice([[2, 5, 5], [2, 6, 0], [2, 8, 1], [2, 2, 2], [2, 10, 0], [2, 5, 9], [2, 1, 0]])
                 swaps[rng.randrange(1, n)] = b
-        ops = build(world, reqs, swaps=swaps)
+        pre = None
+        if rng.random() < 0.15:
+            pre = [x for g in [gen_request(rng) for _ in range(rng.randint(1, 3))] for x in g]
+        ops = build(world, reqs, swaps=swaps, pre=pre)
     scn = {'prop': PROP, 'world': world, 'ops': ops, 'faults': {}, 'cfg': {'mode': mode}}
     if mode == 'noport':
         return scn
+    huge = any(fn in ('doTimedPause', 'timed_pause') and a and isinstance(a[0], int) and a[0] > 200000
+               for g in reqs for (_l, fn, a, _k) in g)
+    if huge:
+        scn['io_cap'] = 200000
     recs, _ = discover(scn)
     faults = {'io': [], 'reply': []}
     lat = rng.choice(['prompt', 'prompt', 'slow', 'edge'])
+    if huge:
+        lat = 'prompt'          # a thousand commands, each waited for a hundred reads, is only more of the same
     for op in ops:
         if op['op'] not in ('call', 'lcall') or op.get('m') == 'connect':
             continue
@@ -777,7 +822,7 @@ def gen(rng, idx):
 
 GRID = {
     'xy': [(dx, dy, t) for dx in (0, 1, -7, 500) for dy in (0, 2, -9) for t in (1, 750, 30000)],
-    'pause': [(n,) for n in PAUSE_EDGES + [3, 700, 3000, 7777]],
+    'pause': [(n,) for n in PAUSE_EDGES + [3, 700, 3000, 7777, 1000000]],
     'abs': [(r, p1, p2) for r in (1000,) for p1 in ('absent', None, 0, 5, -5) for p2 in ('absent', None, 0, 7, -7)],
     'pen': [(d, p) for d in (0, 1, 400) for p in ('absent', None, 0, 1, 3)],
     'men': [(r1, r2) for r1 in range(-2, 9) for r2 in range(-2, 9)],
@@ -861,6 +906,13 @@ def sweep_expand(cell):
             groups.append([('ebb3', 'var_read', [tup[1]], {})])
             groups.append([('legacy', 'setEBBLV', [tup[0]], {})])
             groups.append([('legacy', 'queryEBBLV', [], {})])
+    if kind in ('xy', 'pause'):
+        fl = lambda v: {'float': repr(float(v))}
+        groups.insert(0, [('legacy', 'doXYMove', [fl(500), fl(2), fl(750)], {'_nojudge': True})])
+        groups.insert(0, [('legacy', 'doXYMove', [True, False, True], {'_nojudge': True})])
+        groups.insert(0, [('legacy', 'doABMove', [fl(500), fl(2), fl(750)], {'_nojudge': True})])
+        groups.insert(0, [('legacy', 'doTimedPause', [fl(1500)], {'_nojudge': True})])
+        groups.insert(0, [('legacy', 'doTimedPause', [fl(2250)], {'_nojudge': True})])
     if kind == 'sc':
         for g in ([('legacy', 'TogglePen', [], {})], [('ebb3', 'clear_steps', [], {})],
                   [('ebb3', 'clear_accumulators', [], {})],
@@ -874,7 +926,7 @@ def sweep_expand(cell):
     step = 1 if kind == 'men' else 12
     for s in range(0, len(groups), step):
         world = make_world(rng, fw_l=[2, 8, 1], prior=pr)
-        yield {'prop': PROP, 'world': world, 'ops': build(world, groups[s:s + step]), 'faults': {}}
+        yield {'prop': PROP, 'world': world, 'ops': build(world, groups[s:s + step]), 'faults': {}, 'io_cap': 200000}
     # no-port variants of the same requests
     for s in range(0, len(groups), 40):
         world = make_world(rng, fw_l=[2, 8, 1], prior=pr)
